@@ -586,6 +586,14 @@ class Gen:
                 if y < 0.2 and o["anon"] and inner["decl"] == "inline" and not inner.get("name"):
                     fields.append(F(None, inner))
                     self.feat("anon:union" if inner["union"] else "anon:struct")
+                    if not inner["union"] and not union:
+                        # the small integer fields of an anonymous structure member can size later arrays as well
+                        for ff in inner["fields"]:
+                            if ff["name"] and not ff.get("bits") and ff["t"]["k"] == "int" and ff["t"]["t"] in ("uint8", "int8") \
+                                    and self.chance(0.7):
+                                ff["len_src"] = True
+                                int_names.append(ff["name"])
+                                self.feat("len:folded-field")
                 elif y < 0.45:
                     arr = self.array_of(inner, int_names, False, False)
                     # arrays of dynamic elements are fine (variable size) but need allow_dyn
